@@ -1688,6 +1688,7 @@ impl<const MQ: u64> GF255<MQ> {
         for _ in 0..43 {
             let a_odd = (xa & 1).wrapping_neg();
             let swap = a_odd & sgnw(xa.wrapping_sub(xb));
+            ls ^= swap & (xa & xb);
             let t1 = swap & (xa ^ xb);
             xa ^= t1;
             xb ^= t1;
